@@ -65,12 +65,17 @@ func suiteC17(r *Run) {
 		if iter < 40 {
 			depth = 1 + iter%3
 		}
-		baseKind := []string{"grpc", "inproc", "http", "rec"}[rng.Intn(4)]
+		baseKind := []string{"grpc", "inproc", "http", "rec", "grpcf", "recf"}[rng.Intn(6)]
 		var log []string
 		var base grpc.ClientConnInterface
 		switch baseKind {
 		case "grpc":
 			base = bb.cc
+		case "grpcf":
+			// a wrapper of the user's own (any WrappedClientConn) around the standard connection: still found at the bottom
+			base = &foreignWrap{bb.cc}
+		case "recf":
+			base = &foreignWrap{&recordingChannel{log: &log}}
 		case "inproc":
 			base = newInproc(&scriptServer{})
 		case "http":
@@ -202,7 +207,7 @@ func suiteC17(r *Run) {
 			}
 			var got []int
 			wantCC := "nil"
-			if baseKind == "grpc" {
+			if baseKind == "grpc" || baseKind == "grpcf" {
 				wantCC = "root"
 			}
 			for _, e := range log {
@@ -239,7 +244,7 @@ func suiteC17(r *Run) {
 					cur = 0
 				}
 			}
-			if !stopped && baseKind == "rec" {
+			if !stopped && (baseKind == "rec" || baseKind == "recf") {
 				wantOpts = append(wantOpts, sprintf("opts=%d)", cur))
 			}
 			var gotOpts []string
@@ -262,3 +267,15 @@ func suiteC17(r *Run) {
 		}
 	}
 }
+
+
+// foreignWrap: a WrappedClientConn that is not grpchan's own wrapper type.
+type foreignWrap struct{ inner grpc.ClientConnInterface }
+
+func (f *foreignWrap) Invoke(ctx context.Context, method string, args, reply interface{}, opts ...grpc.CallOption) error {
+	return f.inner.Invoke(ctx, method, args, reply, opts...)
+}
+func (f *foreignWrap) NewStream(ctx context.Context, desc *grpc.StreamDesc, method string, opts ...grpc.CallOption) (grpc.ClientStream, error) {
+	return f.inner.NewStream(ctx, desc, method, opts...)
+}
+func (f *foreignWrap) Unwrap() grpc.ClientConnInterface { return f.inner }
